@@ -290,7 +290,7 @@ PROPS['C19'] = dict(
 _SAN = dict(always_sanitize=True)
 _MEMKINDS = ['stl-assert', 'asan', 'signal', 'divzero', 'memory', 'spec']
 PROPS['C09'] = dict(
-    engine='A+B', irsym=[dict(module='c13', checks=[0, 1, 4, 6], params=dict(quick=dict(nmax_data=3), thorough=dict(nmax_data=4))),
+    engine='A+B', irsym=[dict(module='c13', checks=[0, 1, 4, 5, 6], params=dict(quick=dict(nmax_data=3, nmax_large=10), thorough=dict(nmax_data=4, nmax_large=13))),
                         dict(module='c18', tiers=['quick'], params=dict(quick=dict(nmax=3, gen_sizes=[2])),
                              select=dict(quick=['chk_eval1', 'chk_eval', 'chk_iszero', 'chk_scopy', 'chk_applyX1', 'chk_applyX3', 'chk_applyDx1', 'chk_mul', 'chk_splop', 'chk_bilin', 'chk_scalarprod', 'chk_linform', 'chk_scale', 'chk_generate1'])),
                         dict(module='c18', tiers=['thorough'], params=dict(thorough=dict(nmax=3)), select=dict(thorough=['chk_eval', 'chk_eval1', 'chk_add_shared', 'chk_add_distinct', 'chk_mul', 'chk_splop', 'chk_bilin', 'chk_linform', 'chk_applyX1', 'chk_scopy']))],
